@@ -38,7 +38,7 @@ class PROP(Prop):
         "create_io() returns a started transport refining the IO contract (Popen2IOMaster: C08)",
         "bytes are SMT sequences; int is mathematical",
     ]
-    not_decided = ["socket server bootstrap (script/socketserver.py, start_via) and remote execmodels other than thread/main_thread_only: native scenario only (gevent is not installed here)",
+    not_decided = ["socket server bootstrap (script/socketserver.py, start_via) and the gevent/eventlet execmodels: native scenario only",
                    "blocking of the master's receiver thread while forward_to_sub writes to a full pipe (the XXX in the source): liveness, not decided",
                    "concurrent control requests on one ProxyIO: _controll is a send followed by a receive without a lock, so two concurrent callers may get each other's reply; the contract is for one request at a time "
                    "(execnet's own concurrent pair, exit() against the receiver epilogue, asks close_write twice: equal replies)",
@@ -73,6 +73,47 @@ class PROP(Prop):
         order = [srv.find("proxy_channelX.receive()"), srv.find("create_io("), srv.find("cast('Channel', proxy_channelX.receive())")]
         out.append(("static/serve_proxy_io/receives-spec-then-control-channel", all(p >= 0 for p in order) and order == sorted(order), f"positions {order}"))
         out.append(("static/serve_proxy_io/callbacks-installed", "proxy_channelX.setcallback(forward_to_sub)" in srv and "control_chan.setcallback(control)" in srv, "setcallback"))
+        return out + self._submodule_obligations()
+
+    def _submodule_obligations(self):
+        """ExecModel accessors: `import top` followed by `top.sub` is only safe when `sub` is bound by top's __init__; when `top.sub` is a
+        submodule the accessor must import it itself (gevent.socket is not loaded by `import gevent`).  Importability is asked of /venv's python."""
+        import json
+        import subprocess
+
+        gb = extract.load(GB)
+        uses = []
+        for cname in ("ExecModel", "WorkerPoolExecModel", "ThreadExecModel", "MainThreadOnlyExecModel", "EventletExecModel", "GeventExecModel"):
+            cls = gb.classes.get(cname)
+            for fn in [n for n in (cls.body if cls else []) if isinstance(n, ast.FunctionDef)]:
+                imported = {al.name for n in ast.walk(fn) if isinstance(n, ast.Import) for al in n.names}
+                tops = {i.split(".")[0] for i in imported}
+                for n in ast.walk(fn):
+                    if isinstance(n, ast.Attribute):
+                        chain, cur = [], n
+                        while isinstance(cur, ast.Attribute):
+                            chain.append(cur.attr); cur = cur.value
+                        if isinstance(cur, ast.Name) and cur.id in tops:
+                            dotted = ".".join([cur.id] + chain[::-1])
+                            uses.append((f"{cname}.{fn.name}", dotted, sorted(imported)))
+        probe = ("import importlib.util, json, sys\nout = {}\nfor d in json.load(sys.stdin):\n    parts = d.split('.')\n    r = []\n"
+                 "    for i in range(2, len(parts) + 1):\n        name = '.'.join(parts[:i])\n        try:\n            top = importlib.util.find_spec(parts[0])\n"
+                 "            sp = importlib.util.find_spec(name) if top else None\n        except Exception:\n            sp = None\n"
+                 "        if top is None:\n            r = None; break\n        if sp is not None:\n            r.append(name)\n        else:\n            break\n    out[d] = r\nprint(json.dumps(out))")
+        try:
+            p = subprocess.run(["/venv/bin/python", "-c", probe], input=json.dumps(sorted({u[1] for u in uses})), capture_output=True, text=True, timeout=60)
+            info = json.loads(p.stdout)
+        except Exception as e:  # no answer: nothing can be decided
+            return [("static/execmodel-accessors/probe-ran", False, f"{type(e).__name__}: {e}")]
+        out, seen = [], set()
+        for where, dotted, imported in uses:
+            subs = info.get(dotted)
+            if subs is None or (where, dotted) in seen:
+                continue   # top-level package not installed here: undecided, listed under not_decided
+            seen.add((where, dotted))
+            for sub in subs:   # every prefix that is a submodule must be covered by an import statement of the accessor
+                ok = any(i == sub or i.startswith(sub + ".") for i in imported)
+                out.append((f"static/{where}/submodule-imported:{sub}", ok, f"uses {dotted}; imports {imported}"))
         return out
 
     def replay(self, ob):
@@ -81,6 +122,6 @@ class PROP(Prop):
     def bounded(self, tier):
         res = run_oracle("c16_transports.py", None, timeout=1500, args=[tier])
         return [{"name": "native-transport-transcripts", "bound": "one echo/sub-channel/callback/error/close program with payloads 0 B .. 64 KiB" + (" .. 4 MiB, 3 seeds" if tier == "thorough" else "")
-                 + " on popen, popen//python=, socket//installvia, popen//via x {thread, main_thread_only}; kill/wait/exit through the proxy; worker killed on popen/via/socket; "
+                 + " on popen, popen//python=, socket//installvia, popen//via x remote execmodels {thread, main_thread_only, gevent when importable}; kill/wait/exit through the proxy; worker killed on popen/via/socket; "
                  "the three IO classes on a two-frame stream cut at every byte", "evaluations": res.get("n", 0), "failures": 1 if res.get("failed") else 0,
                  "detail": res.get("results") if res.get("failed") else None}]
